@@ -308,6 +308,12 @@ func TestVerif_C15(t *testing.T) {
 		}
 		vfStats.Subchecks["names"] = fmt.Sprintf("all %d registered names and aliases", len(c15Names))
 	}
+	if vfOnlySub("static") {
+		vfRunStatic(t, "C15", 48)
+	}
+	if t.Failed() {
+		return
+	}
 	if vfOnlySub("dec") {
 		vfRun(t, vfSub[c15Case]{Prop: "C15", Name: "dec", Checks: vfN(200000, 16000000), Gen: c15Gen, Check: c15Check})
 	}
